@@ -137,6 +137,7 @@ type CancelEv struct {
 	DoneBefore bool   `json:"donebefore"` // ... it had already ended before the client did anything
 	Released   bool   `json:"released"`   // the blocked stream call returned within the wait
 	RelErr     bool   `json:"relerr"`     // ... with an error
+	RelEOF     bool   `json:"releof"`     // ... namely io.EOF: the handler was told the stream ended cleanly
 	Ms         int64  `json:"ms"`
 	Crash      string `json:"crash"`
 }
@@ -392,6 +393,7 @@ func runCancelCase(c CancelCase) (ev CancelEv) {
 		case err := <-released:
 			ev.Released = true
 			ev.RelErr = err != nil
+			ev.RelEOF = err == io.EOF
 		case <-time.After(cancelWait):
 		}
 	}
